@@ -42,7 +42,7 @@ def outcome(r):
 
 def runner(pid, prop, tier, seed, scratch, replay=None):
     rng = random.Random(seed)
-    ninputs, budget, nfresh = (40, 24, 4) if tier == "quick" else (600, 120, 8)
+    ninputs, budget, nfresh = (40, 24, 4) if tier == "quick" else (250, 100, 8)
     inputs = []
     if replay:
         doc = json.load(open(os.path.join(P.VERIF, replay) if not os.path.isabs(replay) else replay))
